@@ -18,6 +18,15 @@ use std::process::{Child, Command, Stdio};
 use std::time::{Duration, Instant};
 
 const BASE_TOKEN: &str = "/@BASE@";
+/// a request is `<target>` or `<target>\u{1}<accept-encoding value>`
+const SEP: char = '\u{1}';
+fn split_req(req: &str) -> (&str, Option<&str>) {
+	match req.split_once(SEP) {
+		Some((t, a)) => (t, Some(a)),
+		None => (req, None),
+	}
+}
+const ACCEPTS: &[&str] = &["gzip", "br", "gzip, br", "identity"];
 
 // ---------------------------------------------------------------- fixture
 
@@ -132,6 +141,8 @@ fn default_entries() -> Vec<Entry> {
 		f("rootx/index.html", 1008), f("rootx/only.txt.br", 1009), f("rootx/gz.txt.gz", 1010),
 		d("root-private"), f("root-private/secret.txt", 1011), f("root-private/index.html", 1012), f("root.bak", 1013),
 		d("root.d"), f("root.d/index.html.br", 1014), d("root2x"), f("root2x/a.txt", 1015),
+		// precompressed-only files next to / above the web root (no plain sibling)
+		f("backup.tar.gz", 1020), f("sib/only.js.br", 1021), f("secret2.txt.gz", 1022), f("sib/page.html.br", 1023), f("sib/page.html.gz", 1024),
 		d("root2"), f("root2/index.html", 30), f("root2/a.txt", 31), f("root2/r2.txt", 32),
 	]
 }
@@ -313,10 +324,14 @@ impl Client {
 		false
 	}
 	/// one exchange on the current connection; `Err(())` = closed before a complete response
-	fn exchange(&mut self, target: &str) -> Result<(u16, Vec<u8>), ()> {
+	fn exchange(&mut self, req: &str) -> Result<(u16, Vec<u8>), ()> {
 		use std::io::BufRead;
 		let r = self.conn.as_mut().ok_or(())?;
-		let req = format!("GET {target} HTTP/1.1\r\nHost: localhost\r\n\r\n");
+		let (target, accept) = split_req(req);
+		let req = match accept {
+			None => format!("GET {target} HTTP/1.1\r\nHost: localhost\r\n\r\n"),
+			Some(a) => format!("GET {target} HTTP/1.1\r\nHost: localhost\r\nAccept-Encoding: {a}\r\n\r\n"),
+		};
 		r.get_mut().write_all(req.as_bytes()).map_err(|_| ())?;
 		let mut line = String::new();
 		if r.read_line(&mut line).map_err(|_| ())? == 0 {
@@ -326,6 +341,7 @@ impl Client {
 		let mut len: Option<usize> = None;
 		let mut chunked = false;
 		let mut close = false;
+		let mut cenc = String::new();
 		loop {
 			line.clear();
 			if r.read_line(&mut line).map_err(|_| ())? == 0 {
@@ -343,6 +359,9 @@ impl Client {
 			}
 			if l.starts_with("connection:") && l.contains("close") {
 				close = true;
+			}
+			if let Some(v) = l.strip_prefix("content-encoding:") {
+				cenc = v.trim().to_string();
 			}
 		}
 		let mut body = Vec::new();
@@ -369,6 +388,14 @@ impl Client {
 		}
 		if close {
 			self.conn = None;
+		}
+		// undo the transfer coding chosen by the server (`Content-Encoding`), so that the body is the served file
+		if cenc == "gzip" {
+			let mut d = Vec::new();
+			if flate2::read::GzDecoder::new(&body[..]).read_to_end(&mut d).is_ok() { body = d; }
+		} else if cenc == "br" {
+			let mut d = Vec::new();
+			if brotli::Decompressor::new(&body[..], 4096).read_to_end(&mut d).is_ok() { body = d; }
 		}
 		Ok((status, body))
 	}
@@ -638,6 +665,13 @@ struct Group {
 	targets: Vec<String>, // with BASE_TOKEN already replaced by the real base
 }
 
+fn with_accept(target: &str, accept: Option<&str>) -> String {
+	match accept {
+		Some(a) => format!("{target}{SEP}{a}"),
+		None => target.to_string(),
+	}
+}
+
 fn run_group(out: &mut Out, base: &Path, idx: usize, g: &Group, shrink_budget: &mut usize) {
 	let server = start_server(base, &g.sources, idx);
 	let world = make_world(base, &g.entries, &g.sources);
@@ -645,10 +679,14 @@ fn run_group(out: &mut Out, base: &Path, idx: usize, g: &Group, shrink_budget: &
 	let ent = show_entries(&g.entries);
 	let src = show_sources(&g.sources);
 	let backend = if g.sources.len() > 1 { "multi" } else { match g.sources[0].backend { Backend::Folder(_) => "folder", Backend::Tar(_) => "tar" } };
-	for (t, r) in g.targets.iter().zip(resps.iter()) {
+	for (req, r) in g.targets.iter().zip(resps.iter()) {
+		let (t, accept) = split_req(req);
+		let acc_field = |a: Option<&str>| a.map_or(String::new(), |a| format!(" {}", hex(a.as_bytes())));
+		let t = &t.to_string();
 		let (dotdot, absolute, encoded, noise) = features(t);
 		let nontrivial = dotdot || absolute || encoded || noise;
-		let line = format!("C07 {} {} {} {}", base.display(), ent, src, hex(t.as_bytes()));
+		let line = format!("C07 {} {} {} {}{}", base.display(), ent, src, hex(t.as_bytes()), acc_field(accept));
+		out.count(&format!("accept_{}", accept.unwrap_or("none").replace(", ", "+")));
 		out.case(&line, &r.show(), nontrivial);
 		out.count(match r { Resp::Ok(_) => "status_200", Resp::NotFound => "status_404", Resp::Closed => "closed", Resp::Other(_) => "status_other" });
 		out.count(&format!("backend_{backend}"));
@@ -672,7 +710,7 @@ fn run_group(out: &mut Out, base: &Path, idx: usize, g: &Group, shrink_budget: &
 							p.remove(i);
 							let cand = p.join("/");
 							if cand.is_empty() || !cand.starts_with('/') { continue; }
-							let rr = ask(server.addr, &cand);
+							let rr = ask(server.addr, &with_accept(&cand, accept));
 							if let Some((k2, _)) = judge(&world, &cand, &rr) {
 								if k2 == kind { better = Some(cand); break; }
 							}
@@ -680,13 +718,13 @@ fn run_group(out: &mut Out, base: &Path, idx: usize, g: &Group, shrink_budget: &
 						match better { Some(b) => cur = b, None => break }
 					}
 				}
-				let rr = ask(server.addr, &cur);
+				let rr = ask(server.addr, &with_accept(&cur, accept));
 				let (d2, a2, e2, _) = features(&cur);
-				let small = format!("C07 {} {} {} {}", BASE_TOKEN, ent, src, hex(cur.replace(&base.display().to_string(), BASE_TOKEN).as_bytes()));
+				let small = format!("C07 {} {} {} {}{}", BASE_TOKEN, ent, src, hex(cur.replace(&base.display().to_string(), BASE_TOKEN).as_bytes()), acc_field(accept));
 				out.oracle(
 					false,
-					&format!("C07 {kind}: GET {} → {}; {msg}", trunc(&cur, 200), rr.show()),
-					json!({"kind": kind, "backend": backend, "dotdot": d2, "absolute": a2, "encoded": e2}),
+					&format!("C07 {kind}: GET {}{} → {}; {msg}", trunc(&cur, 200), accept.map_or(String::new(), |a| format!(" [Accept-Encoding: {a}]")), rr.show()),
+					json!({"kind": kind, "backend": backend, "dotdot": d2, "absolute": a2, "encoded": e2, "accept": accept.is_some()}),
 					json!({"case": small, "target": cur, "impl": rr.show(), "original_target": t, "sources": src}),
 				);
 			}
@@ -698,7 +736,7 @@ fn run_group(out: &mut Out, base: &Path, idx: usize, g: &Group, shrink_budget: &
 pub fn run(args: &Args) {
 	quiet_panics();
 	let mut out = Out::new(&args.out);
-	out.rule = "raw HTTP/1.1 GET requests (target bytes sent verbatim) against `versatiles serve` with folder / tar static sources, with and without URL prefix, and a multi-source configuration; fixture with canary files outside the roots; targets: all sequences of depth ≤3 (thorough ≤4) over a small segment alphabet (names, '.', '..', empty, %2e%2e, …) plus seeded random sequences of depth ≤6 over a large alphabet, plus absolute-path targets (//, /// after the URL prefix) at every sibling whose path string extends a root's path string (rootx/…, root.br, root-private/…), plus guided walks (existing files, directories and archive members perturbed by '.', empty, 'x/..', '..', partially encoded segments, dropped .br/.gz extensions) with extra leading slashes, absolute-path injections, trailing slash, ?query/#fragment; non-trivial = the path contains a '..', '.', empty, percent-encoded or backslash segment or an absolute form; distinct by case text".into();
+	out.rule = "raw HTTP/1.1 GET requests (target bytes sent verbatim) against `versatiles serve` with folder / tar static sources, with and without URL prefix, and a multi-source configuration; fixture with canary files outside the roots; targets: all sequences of depth ≤3 (thorough ≤4) over a small segment alphabet (names, '.', '..', empty, %2e%2e, …) plus seeded random sequences of depth ≤6 over a large alphabet, plus absolute-path targets (//, /// after the URL prefix) at every sibling whose path string extends a root's path string (rootx/…, root.br, root-private/…), plus every file outside a root (canaries, precompressed-only .br/.gz siblings) via '..' and absolute forms with and without its extension; requests carry no Accept-Encoding or one of gzip / br / 'gzip, br' / identity (all five for the fixed list and the outside-file targets, one seeded variant for the bulk); plus guided walks (existing files, directories and archive members perturbed by '.', empty, 'x/..', '..', partially encoded segments, dropped .br/.gz extensions) with extra leading slashes, absolute-path injections, trailing slash, ?query/#fragment; non-trivial = the path contains a '..', '.', empty, percent-encoded or backslash segment or an absolute form; distinct by case text".into();
 	std::fs::create_dir_all(&args.out).unwrap();
 	let base = std::fs::canonicalize(&args.out).unwrap().join("w");
 	let base_s = base.display().to_string();
@@ -709,10 +747,13 @@ pub fn run(args: &Args) {
 		let mut groups: Vec<(String, Group)> = vec![];
 		for line in std::fs::read_to_string(p).unwrap().lines() {
 			let t: Vec<&str> = line.split(' ').collect();
-			if t.len() != 5 || t[0] != "C07" {
+			if (t.len() != 5 && t.len() != 6) || t[0] != "C07" {
 				continue;
 			}
-			let target = String::from_utf8_lossy(&unhex(t[4])).to_string().replace(t[1], &base_s);
+			let mut target = String::from_utf8_lossy(&unhex(t[4])).to_string().replace(t[1], &base_s);
+			if t.len() == 6 {
+				target = with_accept(&target, Some(&String::from_utf8_lossy(&unhex(t[5]))));
+			}
 			let key = format!("{} {}", t[2], t[3]);
 			match groups.iter_mut().find(|g| g.0 == key) {
 				Some(g) => g.1.targets.push(target),
@@ -868,6 +909,51 @@ pub fn run(args: &Args) {
 				}
 			}
 		}
+		// guided: every file OUTSIDE a folder root (canaries, precompressed-only siblings) through
+		// parent segments and absolute forms, with and without its .br/.gz extension
+		let mut critical: Vec<String> = vec![];
+		for s in sources {
+			if let Backend::Folder(r) = &s.backend {
+				let pfx = if s.prefix.is_empty() { String::new() } else { norm_prefix(&s.prefix).trim_end_matches('/').to_string() };
+				let inside = format!("{r}/");
+				let up = "../".repeat(r.split('/').count());
+				for e in &entries {
+					if let Entry::File(p, _) = e {
+						if p.starts_with(&inside) { continue; }
+						let mut names = vec![p.clone()];
+						for ext in [".br", ".gz"] {
+							if let Some(q) = p.strip_suffix(ext) { names.push(q.to_string()); }
+						}
+						for n in names {
+							critical.push(format!("{pfx}/{up}{n}"));
+							critical.push(format!("{pfx}/sub/../{up}{n}"));
+							critical.push(format!("{pfx}///{}/{n}", &base_s[1..]));
+							critical.push(format!("{pfx}///{}/{r}/{up}{n}", &base_s[1..]));
+						}
+					}
+				}
+			}
+		}
+		// Accept-Encoding: the fixed list and the outside-file targets are sent with every header
+		// variant, the bulk with one seeded variant each
+		let n_fixed = fixed.len();
+		let mut reqs: Vec<String> = Vec::with_capacity(targets.len() + 5 * (critical.len() + n_fixed));
+		for (i, t) in targets.iter().enumerate() {
+			if i < n_fixed {
+				reqs.push(t.clone());
+				reqs.extend(ACCEPTS.iter().map(|a| with_accept(t, Some(a))));
+			} else {
+				match rng.below(6) {
+					0 | 1 => reqs.push(t.clone()),
+					k => reqs.push(with_accept(t, Some(ACCEPTS[(k - 2) as usize]))),
+				}
+			}
+		}
+		for t in &critical {
+			reqs.push(t.clone());
+			reqs.extend(ACCEPTS.iter().map(|a| with_accept(t, Some(a))));
+		}
+		let targets = reqs;
 		let g = Group { entries: entries.clone(), sources: sources.clone(), targets };
 		run_group(&mut out, &base, ci, &g, &mut shrink_budget);
 	}
